@@ -1,20 +1,27 @@
 import CbiVerif.PP.Find
 import CbiVerif.Model.FindFold
+import CbiVerif.Model.FindCache
 /-!
-`finder.find` as an INSTANCE of the generic double fold `FindFold.findG`:
+`finder.find` as an INSTANCE of the generic double fold `FindFold.findG`, for the C family:
 the single-command analysis is the body of the inner loop of `finder.find`
-(fresh `Platform`, `-I`, `-D`, `-include` files, then the file itself), built from the
-executable preprocessor model `CbiVerif.PP` (`assocFile`, `Platform.findInclude`,
-`PState.insertFile`, `macroFromDefinitionString`).
+(fresh `Platform`, `-I`, `-D`, `-include` files, then the file itself) from a fresh state.
+
+There is no engine of its own here any more.  The single-command analysis `analyseEntryN n fs` is
+`FindCache.analyse (semPP fs) n` — the total, fuelled, cache-free engine `Exclude.runEntryRef` of
+`Model/Exclude.lean` (the engine the C10 theorems are about and ops `c10find` / `c08find.cached` execute),
+instantiated with the semantics record `semPP fs`: the record `Exclude.sem fs` the other ops run, with every
+file sent through the C front end whatever its extension (the design-phase visitor `PP.assocFile`, a
+`partial def`, did exactly that; it is deleted).  `Props/C08Engines.lean` proves that `findI` IS
+`FindCache.findRefG (semPP fs)`, equals the run with the shared parse cache `FindCache.findC (semPP fs)`
+unconditionally, and equals `findRefG (Exclude.sem fs)` on C-family inputs.
 
 What is modelled differently from the code, on purpose:
 * the parse cache `ParserState.trees` is not threaded from one command to the next:
-  every command starts from an empty `PState` and parses what it needs
-  (`insertFile`).  In the code the cache is shared by all commands and platforms.  That the
-  shared cache is unobservable is PROVED for the total model with the explicit cache,
-  `Model/FindCache.lean` (`C08.cache_transparent_partial`, `C08.find_cached_eq_findG_partial`),
-  up to finding F-C08-1 = D19; that the tokens stored in the cache are never modified is what
-  the correspondence check tests (finding F-C08-2, repaired).
+  every command starts from a fresh state and parses what it reaches.  In the code the cache is shared by all
+  commands and platforms.  That the shared cache is unobservable is PROVED (`C08.cache_transparent_partial`,
+  `C08.find_cached_eq_findG_partial`, and for this instance without side condition:
+  `C08.findI_eq_cached`), up to finding F-C08-1 = D19; that the tokens stored in the cache are never modified is
+  what the correspondence check tests (finding F-C08-2, repaired).
 * the up-front parse of every code-base file and every entry file is kept only as the
   error check `prepare` (an unparsable file aborts the run).
 * the platform's name is only used by `associate`; the single-command analysis runs under
@@ -23,7 +30,7 @@ What is modelled differently from the code, on purpose:
 Core Lean only.
 -/
 namespace CbiVerif.FindInst
-open CbiVerif.PP CbiVerif.FindFold
+open CbiVerif.PP CbiVerif.FindFold CbiVerif.Exclude
 
 /-- a node of a parsed file: (canonical path, index in parse order) -/
 abbrev NodeKey := String × Nat
@@ -42,49 +49,28 @@ def prepare (fs : FSMap) : List String → Except Err Unit
     | .error e => .error e
     | .ok _ => prepare fs rest
 
-/-- `Platform(p, rootdir)`; `add_include_path` for every -I; `define` for every -D
-(the first definition of a name wins) -/
-def freshPlatform (e : Entry) : Except Err Platform :=
-  let rec go (ds : List String) (plat : Platform) : Except Err Platform :=
-    match ds with
-    | [] => .ok plat
-    | d :: rest =>
-      match macroFromDefinitionString d with
-      | .error er => .error er
-      | .ok m =>
-        go rest (if (plat.tbl.get m.name).isNone then { plat with tbl := plat.tbl ++ [(m.name, m)] } else plat)
-  go e.defines { name := "", incPaths := e.includePaths }
-
-/-- one `-include` file: found relative to the source file's directory, parsed, associated
-(unless `#pragma once` put it on the platform's once-list) -/
-def forcedInclude (fs : FSMap) (e : Entry) (w : World) (inc : String) : World :=
-  if w.st.err.isSome then w else
-  let (found, p2) := w.plat.findInclude fs inc (dirname e.file) false
-  let w := { w with plat := p2 }
-  match found with
-  | some f =>
-    -- `elif file_platform.process_include(include_file)`: a file on the once-list is not processed again
-    if w.plat.skip.contains f then w else
-    let w := { w with st := w.st.insertFile fs f }
-    if w.st.err.isNone then assocFile fs f w else w
-  | none => w
+/-- the C-family instance of the engine's semantics: `Exclude.sem fs` (node step, include search, `-include`
+search, `Platform` construction) with every file handed to the C front end, whatever its extension -/
+def semPP (fs : FSMap) : Sem :=
+  { sem fs with extClass := fun _ => some .c, parseAs := fun _ f => parseAsFS fs .c f }
 
 /-- the body of the inner loop of `finder.find` for ONE database entry, from a fresh state:
-which nodes are visited and which warnings are logged (or the exception raised) -/
-def analyseEntry (fs : FSMap) (e : Entry) : Except Err (Out NodeKey Warn) :=
-  match freshPlatform e with
-  | .error er => .error er
-  | .ok plat =>
-    let st0 := ({} : PState).insertFile fs e.file
-    let w0 : World := { st := st0, plat := plat }
-    let w1 := e.includeFiles.foldl (forcedInclude fs e) w0
-    let w2 := if w1.st.err.isNone then assocFile fs e.file w1 else w1
-    match w2.st.err with
-    | some er => .error er
-    | none => .ok { keys := w2.st.assoc.map (·.1), warns := w2.st.warns }
+which nodes are visited and which warnings are logged (or the exception raised); `n` = fuel of the engine -/
+def analyseEntryN (n : Nat) (fs : FSMap) (e : Entry) : Except Err (Out NodeKey Warn) :=
+  FindCache.analyse (semPP fs) n e
+
+/-- … with the driver's default fuel -/
+def analyseEntry (fs : FSMap) (e : Entry) : Except Err (Out NodeKey Warn) := analyseEntryN defaultFuel fs e
 
 /-- the files named by the database entries -/
 def filesOf (config : Config Entry) : List String := (jobs config).map (·.2.file)
+
+/-- `finder.find(rootdir, codebase, configuration)`, fuel `n` -/
+def findIN (n : Nat) (fs : FSMap) (codebase : List String) (config : Config Entry) :
+    Except Err (Acc NodeKey Warn) :=
+  match prepare fs (codebase ++ filesOf config) with
+  | .error e => .error e
+  | .ok _ => findG (analyseEntryN n fs) config
 
 /-- `finder.find(rootdir, codebase, configuration)` -/
 def findI (fs : FSMap) (codebase : List String) (config : Config Entry) :
@@ -99,5 +85,26 @@ def specI (fs : FSMap) (codebase : List String) (config : Config Entry) :
   match prepare fs (codebase ++ filesOf config) with
   | .error e => .error e
   | .ok _ => specFind (analyseEntry fs) config
+
+/-- the state-threading run of the same instance (driver field `pp`; it replaces the design-phase port
+`PP.find`): `finder.find` with the shared parse cache, every file through the C front end.
+`C08.findI_eq_cached`: it equals `findIN n fs` on every input. -/
+def findPP (n : Nat) (fs : FSMap) (codebase : List String) (config : Config Entry) :
+    Except Err (Acc NodeKey Warn) :=
+  FindCache.findC (semPP fs) n codebase config
+
+/-! ### the decidable side condition of the engine-agreement theorems (`Props/C08Engines.lean`) -/
+
+/-- every existing file has an extension class of the C family, or none -/
+def CFam (fs : FSMap) : Bool := fs.all fun ft => extClass ft.1 == some .c || extClass ft.1 == none
+/-- every existing file has an extension class of the C family -/
+def AllC (fs : FSMap) : Bool := fs.all fun ft => extClass ft.1 == some .c
+
+/-- the decidable side condition of the agreement theorem: no existing file is Fortran or assembler by extension;
+the files of the code base and the compiled files are C-family by extension; and either no command has
+`-include` files or every existing file is C-family by extension -/
+def ClassOK (fs : FSMap) (cb : List String) (cfg : Config Entry) : Bool :=
+  CFam fs && (cb ++ entryFiles cfg).all (fun f => extClass f == some .c) &&
+  ((jobs cfg).all (fun j => j.2.includeFiles.isEmpty) || AllC fs)
 
 end CbiVerif.FindInst
